@@ -724,6 +724,22 @@ func (e *c07Env) keyOracle(ev *Evaluator, st *pstate, k string, cc *ssa.CallComm
 		if a != "" && b != "" && a != "nil" && b != "nil" {
 			return []AVal{c07MkBool(a == b)}, true
 		}
+	case k == "slices.Index" && len(args) == 2:
+		elems, ok := ev.sliceElems(st, args[0])
+		needle, nok := args[1].(aConst)
+		if ok && nok {
+			at := int64(-1)
+			for i, el := range elems {
+				ec, isC := el.(aConst)
+				if !isC {
+					return nil, false
+				}
+				if at < 0 && ec.V.Kind() == needle.V.Kind() && constant.Compare(ec.V, token.EQL, needle.V) {
+					at = int64(i)
+				}
+			}
+			return []AVal{c07MkInt(at, types.Typ[types.Int])}, true
+		}
 	case k == "slices.Contains" && len(args) == 2:
 		elems, ok := ev.sliceElems(st, args[0])
 		needle, nok := args[1].(aConst)
@@ -2603,7 +2619,8 @@ func (e *c07Env) runD4() {
 							}
 							return []AVal{aNil{}, aNonNil{Tag: "key parse error"}}, true
 						}
-						return nil, false
+						// membership of an option in the (fully known) variadic option list
+						return e.keyOracle(ev, st, k, cc, args)
 					},
 				}
 				x := &c07Interp{ev: &Evaluator{W: e.w, Cfg: cfg}}
